@@ -92,6 +92,9 @@ OPS = {
     "missing_in":   dict(rule=_r(["mov"], {"operands-full-match": True}), rule_path="p3.yaml", input="MISSING"),
     "hexh_full":    dict(rule=_r([{"movl": ["1h"]}], {"operands-full-match": True}), rule_path="p1.yaml", input="L1"),     # <hex>h number syntax
     "hexh_part":    dict(rule=_r([{"movl": ["1h"]}]), rule_path="p2.yaml", input="L1"),
+    # the rule given through a symbolic link that stays in place while the file behind it is rewritten by other operations
+    "sym_mov":      dict(rule=_r([{"mov": ["rbx", "rax"]}]), rule_path="p1.yaml", symlink=True, input="L1"),
+    "sym_push":     dict(rule=_r(["push"]), rule_path="p1.yaml", symlink=True, input="L1", modes=("list", "all", True)),
     "first_bool":   dict(rule=_r([{"mov": ["rax"]}]), rule_path="p1.yaml", input="L1", modes=("bool", "first", False)),
     "first_list":   dict(rule=_r(["push"]), rule_path="p1.yaml", input="L1", modes=("list", "first", False)),
 }
@@ -173,6 +176,11 @@ def run_op(workdir, name):
     rp = os.path.join(workdir, op["rule_path"])
     with open(rp, "w") as f:
         f.write(yaml.safe_dump(op["rule"], sort_keys=False))
+    if op.get("symlink"):
+        link = os.path.join(workdir, "lnk_" + op["rule_path"])
+        if not os.path.islink(link):
+            os.symlink(rp, link)
+        rp = link
     macros = None
     if op.get("lib"):
         lp = os.path.join(workdir, op["lib"][0])
@@ -200,6 +208,7 @@ def run_op(workdir, name):
     try:
         mop = MasterOfPuppets(cfg)
         value = mop.perform_matching()
+        value = list(value) if isinstance(value, list) else value     # a copy: a later call must not be able to rewrite it
         again = mop.perform_matching()          # repeating the operation gives the same result
         return ["ok", value, again == value]
     except BaseException as e:  # noqa
